@@ -757,6 +757,12 @@ def run_program(env, cfg, prog, record=True, plain=False, fault=None):
                         a.target = t
                     s.add(a)
                     kept_activities.append(a)
+                elif kind == 'actset':
+                    # ['actset', i, verb]: edit an attribute of an activity the application still holds
+                    if not kept_activities:
+                        outcomes.append('skip')
+                        continue
+                    kept_activities[op[1] % len(kept_activities)].verb = op[2]
                 elif kind == 'conn_rollback':
                     # the transaction of the underlying connection is rolled back from outside the session
                     if rec:
